@@ -102,7 +102,7 @@ theorem step2_PS (b : Nat) (w : World) (ctx : StepCtx) (step : Outbound.Step) (n
   have g := good_of_K_not_wait k rfl
   cases hp : prepareStep w step with
   | fail e =>
-    exact Out2.finishErr (.PS w ctx step now) ((Lines.refl w).discFail ctx) (by rw [discFail_wakes]; exact k.1) (ctxName ctx) e
+    exact Out2.finishErr (.PS w ctx step now) ((Lines.refl w).failStep ctx step) (by rw [failStep_wakes]; exact k.1) (ctxName ctx) e
       (fun m => by simp only [Call.run, performStep, hp])
   | done =>
     refine .call (.SR w ctx false) (k.same rfl ?_) (Lines.refl _) (fun m => by simp only [Call.run, performStep, hp])
